@@ -24,6 +24,41 @@ pub fn inv(x: Felt) -> Felt {
     x.inverse().expect("inverse of zero")
 }
 
+/// Multiplicative order of 2 in the field (p − 1 = 2^192 · 5 · 7 · 98714381 · 166848103).
+/// `2^(e + k·ord) = 2^e`: a declared exponent that is only ever used through `2^x` has aliases.
+pub fn order_of_two() -> num_bigint::BigUint {
+    use num_bigint::BigUint;
+    let p_minus_1 = (Felt::ZERO - Felt::ONE).to_biguint();
+    let mut n = p_minus_1.clone();
+    let is_one = |e: &BigUint| Felt::TWO.pow_felt(&Felt::from_bytes_be_slice(&e.to_bytes_be())) == Felt::ONE;
+    for q in [2u64, 5, 7, 98714381, 166848103] {
+        let q = BigUint::from(q);
+        while (&n % &q) == BigUint::from(0u32) && is_one(&(&n / &q)) {
+            n /= &q;
+        }
+    }
+    assert!(is_one(&n));
+    n
+}
+
+/// e + k·ord(2) for the k that keep the value below p (never equal to e).
+pub fn exponent_aliases(e: u64) -> Vec<Felt> {
+    use num_bigint::BigUint;
+    let ord = order_of_two();
+    let p = (Felt::ZERO - Felt::ONE).to_biguint() + BigUint::from(1u32);
+    let mut out = Vec::new();
+    let mut k = 1u32;
+    loop {
+        let v = BigUint::from(e) + &ord * BigUint::from(k);
+        if v >= p || out.len() >= 9 {
+            break;
+        }
+        out.push(Felt::from_bytes_be_slice(&v.to_bytes_be()));
+        k += 1;
+    }
+    out
+}
+
 pub fn bitrev(i: u64, bits: u32) -> u64 {
     if bits == 0 {
         0
